@@ -2,7 +2,7 @@ import RtcModel.DtlsHs
 import RtcModel.Base.C02Sha256
 import RtcModel.Fingerprint
 import RtcModel.Drv.Util
-import RtcModel.Drv.C03
+import RtcModel.Drv.DtlsHsStream
 /-
 Driver for C02 (and, through `hsSession`, C11).  Streams:
   hs   init,<c|s>,<expected fp text hex | ->,<pub>,<clientRandom>,<chBody>,<ch2Body>,<serverRandom>,<shBody>,<certBody>,<skeBody>,<ckeBody>
@@ -13,129 +13,12 @@ Driver for C02 (and, through `hsSession`, C11).  Streams:
   fpd  <digest hex>                  `fingerprint_from_der`'s formatting of a 32-byte digest
 -/
 namespace RtcModel.Drv.C02
-open RtcModel.Generated RtcModel.DtlsRecord RtcModel.DtlsHs RtcModel.Drv
-
-abbrev Facts := List (String × String)
-
-def fkey (bs : Bytes) : String := C03.natHex (C03.fnv64 bs)
-
-def parseFacts (s : String) : Facts :=
-  if s = "-" then [] else
-  (s.splitOn ";").filterMap fun kv =>
-    match kv.splitOn "=" with
-    | [k, v] => some (k, v)
-    | _ => none
-
-def asciiBytes (s : String) : Bytes := s.toList.map (fun c => UInt8.ofNat c.toNat)
-def bytesAscii (b : Bytes) : String := String.ofList (b.map (fun x => Char.ofNat x.toNat))
-
-def parseNats (s : String) : List Nat :=
-  if s = "-" then [] else (s.splitOn ".").filterMap String.toNat?
-
-/-- the interpretation of bodies given by the harness; certificates are named by the id the harness
-gave them (the id string's bytes stand for the DER) -/
-def factCrypto (f : Facts) : Crypto where
-  chDecode b := match f.lookup ("ch:" ++ fkey b) with
-    | some v => match v.splitOn "/" with
-      | [r, e, p] => (unhex r).map fun r => (r, e = "1", parseNats p)
-      | _ => none
-    | none => none
-  shDecode b := match f.lookup ("sh:" ++ fkey b) with
-    | some v => match v.splitOn "/" with
-      | [r, e, p] => (unhex r).map fun r => (r, e = "1", p.toNat?)
-      | _ => none
-    | none => none
-  hvrOk b := (f.lookup ("hv:" ++ fkey b)) = some "1"
-  certDecode b := match f.lookup ("ce:" ++ fkey b) with
-    | some "x" => none
-    | some "e" => some []
-    | some v => some ((v.splitOn ".").map asciiBytes)
-    | none => none
-  digest leaf := match f.lookup ("dg:" ++ bytesAscii leaf) with
-    | some v => (unhex v).getD []
-    | none => []
-  pkOk leaf := (f.lookup ("pk:" ++ bytesAscii leaf)) = some "1"
-  skeDecode b := match f.lookup ("sk:" ++ fkey b) with
-    | some "x" => none
-    | some v => unhex v
-    | none => none
-  sigOk leaf cr sr body := (f.lookup ("sg:" ++ fkey (leaf ++ cr ++ sr ++ body))) = some "1"
-  ckeDecode b := match f.lookup ("ck:" ++ fkey b) with
-    | some "x" => none
-    | some v => unhex v
-    | none => none
-  derive _ pk cr sr _ _ := match f.lookup ("dk:" ++ fkey (pk ++ cr ++ sr)) with
-    | some v => match (v.splitOn "/").map unhex with
-      | [some ms, some cr, some sr, some cwk, some swk, some cwi, some swi] => some ⟨ms, cr, sr, cwk, swk, cwi, swi⟩
-      | _ => none
-    | none => none
-  vd ms label tr :=
-    C02Sha256.prf ms (C02Sha256.ascii (if label then "client finished" else "server finished")) (C02Sha256.sha256 tr) 12
-
-/-- handshake records in the clear also show the message they carry -/
-def descr (w : WRec) : String :=
-  if w.ctype = dtlsCtHandshake ∧ !w.sealed then
-    match decodeHs w.plain with
-    | .msg m _ => s!"{w.ctype}.{w.epoch}.{w.seq}:{m.typ}.{m.msgSeq}.{m.body.length}"
-    | _ => s!"{w.ctype}.{w.epoch}.{w.seq}:?"
-  else C03.descr w
-
-def showOuts (e : Ep) (outs : List Out) : String :=
-  let del := outs.filterMap fun o => match o with | .deliver p => some (hex p) | _ => none
-  let snd := outs.filterMap fun o => match o with | .send w => some (descr w) | _ => none
-  let j (l : List String) := if l.isEmpty then "-" else "+".intercalate l
-  s!"{C03.connLetter e.conn},{b01 e.alive},{j del},{j snd}"
-
-def keysId (k : Keys) : String := fkey (k.ms ++ k.cr ++ k.sr ++ k.cwKey ++ k.swKey ++ k.cwIv ++ k.swIv)
-
-def finToken (e : Ep) : String :=
-  let srtp := match e.connSrtp with | some p => toString p | none => "-"
-  match exporter e with
-  | some k => s!"fin:{C03.connLetter e.conn}/{srtp}/{keysId k}"
-  | none => s!"fin:{C03.connLetter e.conn}/-/-"
-
-def stepOp (C : Crypto) (L : Loc) (e : Ep) (t : String) : Option (Ep × String) :=
-  match fields t with
-  | ["dg", hx, tbl] => do
-      let bs ← unhex hx
-      let (e', outs) := onPacket (C03.tableDec (C03.parseTable tbl)) C L e bs
-      some (e', showOuts e' outs)
-  | ["sd", hx] => do
-      let bs ← unhex hx
-      let (e', outs) := onSend e bs
-      some (e', showOuts e' outs)
-  | ["cl"] => let (e', outs) := onClose e; some (e', showOuts e' outs)
-  | ["tk"] => some (e, showOuts e (onTick e))
-  | ["dl"] => let e' := onDeadline e; some (e', showOuts e' [])
-  | _ => none
-
-/-- the `hs` stream, shared with C11 -/
-def hsSession (args : List String) : String :=
-  match args with
-  | ini :: fct :: ops =>
-    match fields ini, fields fct with
-    | ["init", role, fp, pub, cr, ch, ch2, sr, sh, cert, ske, cke], ["facts", ft] =>
-      match unhex pub, unhex cr, unhex ch, unhex ch2, unhex sr, unhex sh, unhex cert, unhex ske, unhex cke with
-      | some pub, some cr, some ch, some ch2, some sr, some sh, some cert, some ske, some cke =>
-        let L : Loc := ⟨pub, cr, ch, ch2, sr, sh, cert, ske, cke⟩
-        let C := factCrypto (parseFacts ft)
-        let expected := if fp = "-" then none else unhex fp
-        let (e0, o0) := start L (role = "c") expected
-        let rec go (e : Ep) (ops : List String) (acc : List String) : List String :=
-          match ops with
-          | [] => (finToken e :: acc).reverse
-          | t :: rest =>
-            match stepOp C L e t with
-            | none => ("bad-op" :: acc).reverse
-            | some (e', o) => go e' rest (o :: acc)
-        " ".intercalate (go e0 ops [showOuts e0 o0])
-      | _, _, _, _, _, _, _, _, _ => "bad-init"
-    | _, _ => "bad-init"
-  | _ => "bad-args"
+open RtcModel.Generated RtcModel.DtlsRecord RtcModel.DtlsHs RtcModel.Drv RtcModel.Drv.DtlsStream
 
 def handle (stream : String) (args : List String) : String :=
   match stream, args with
   | "hs", _ => hsSession args
+  | "dl", _ => deadlineCheck args
   | "fp", [hx] =>
     match unhex hx with
     | some bs =>
